@@ -59,6 +59,7 @@ def build(spec):
     mode = int(rng.integers(0, 4))
     mp["agg_model_hard_threshold"] = mode in (0, 1)
     mp["national_summary_correlation"] = mode in (0, 2)
+    mp["T"] = float(gen.choice(rng, [10, 200, 5000]))
     return el, feed, status, call, rng
 
 
@@ -190,6 +191,16 @@ def run_case(spec, inputs=None):
                 V(f"C08/called-contest-draws-influence-bounds/{mode}", f"alpha={a}: bounds became [{est[1]},{est[2]}] "
                   f"(were [{row[f'lower_{a}']},{row[f'upper_{a}']}]) after replacing only the draws of called "
                   f"contests", called=[names2[i] for i in called_idx])
+        # (f0) the identical request once more on the same client returns the identical frame
+        try:
+            ns_again = client.get_national_summary_votes_estimates(copy.deepcopy(weights), base, alphas)
+            row_again = {k: (float(v) if k != "estimand" else v) for k, v in ns_again.iloc[0].to_dict().items()}
+            if row_again != frames[0][1]:
+                V(f"C08/repeated-request/identical-request-differs/{mode}", f"first request {frames[0][1]}, identical "
+                  f"second request {row_again}")
+        except Exception as e:  # noqa: BLE001
+            V(f"C08/repeated-request/raised/{type(e).__name__}", f"identical second request raised {type(e).__name__}: "
+              f"{str(e)[:200]}")
         # (f) a second summary request on the same client (other weights, base and levels) must be judged on its own:
         # nothing of the first request may survive in the returned frame
         weights2 = None if (weights is not None and rng.random() < 0.3) else {names2[j]: int(rng.integers(1, 40))
